@@ -16,3 +16,66 @@ class SubB(Base):
     def __init__(self, a: int = 2, b: str = "x"):
         super().__init__(a)
         self.b = b
+
+
+class Fac:
+    """A callable class that is NOT a Base: acceptable for Callable[[int], Base], not for Base."""
+
+    def __init__(self, a: int = 4, z: int = 5):
+        self.a, self.z = a, z
+
+    def __call__(self, x: int) -> Base:
+        return Base(self.a + x)
+
+
+import dataclasses  # noqa: E402
+from typing import Callable, Optional  # noqa: E402
+
+
+@dataclasses.dataclass
+class Data:
+    a: int = 0
+    b: int = 0
+
+
+# Holders: the class-typed / Callable-typed / dataclass-typed options of a declaration added from a SIGNATURE
+# (parser.add_class_arguments(Holder), top level), so that action.sub_add_kwargs is the non-empty dict jsonargparse
+# hands to adapt_typehints by reference.  One class per combination, written out (source must be inspectable).
+class H_m:
+    def __init__(self, model: Optional[Base] = None):
+        pass
+
+
+class H_c:
+    def __init__(self, cb: Optional[Callable[[int], Base]] = None):
+        pass
+
+
+class H_mc:
+    def __init__(self, model: Optional[Base] = None, cb: Optional[Callable[[int], Base]] = None):
+        pass
+
+
+class H_d:
+    def __init__(self, d: Optional[Data] = None):
+        pass
+
+
+class H_md:
+    def __init__(self, model: Optional[Base] = None, d: Optional[Data] = None):
+        pass
+
+
+class H_cd:
+    def __init__(self, cb: Optional[Callable[[int], Base]] = None, d: Optional[Data] = None):
+        pass
+
+
+class H_mcd:
+    def __init__(
+        self, model: Optional[Base] = None, cb: Optional[Callable[[int], Base]] = None, d: Optional[Data] = None
+    ):
+        pass
+
+
+HOLDERS = {"m": H_m, "c": H_c, "mc": H_mc, "d": H_d, "md": H_md, "cd": H_cd, "mcd": H_mcd}
